@@ -43,20 +43,26 @@ def lib():
     return _LIB
 
 
+_ZONES = [datetime.timezone.utc, datetime.timezone(datetime.timedelta(hours=-5), "EST"),
+          datetime.timezone(datetime.timedelta(hours=5, minutes=30), "IST"), datetime.timezone(datetime.timedelta(hours=-3, minutes=-30), "NST")]
+
+
 def date_of(n):
-    """model date n (small integer) -> the datetime written into DTPROFUP."""
-    return EPOCH + datetime.timedelta(days=n)
+    """model date n (small integer) -> the datetime written into DTPROFUP: day n, never a whole second (OFX dates carry milliseconds)
+    and written in one of four zones, so that 'asks with the date of the profile held' means the exact INSTANT."""
+    ms = 250 + (n * 137) % 700
+    utc = EPOCH + datetime.timedelta(days=n, hours=12, minutes=(n * 7) % 60, seconds=(n * 11) % 60, milliseconds=ms)
+    return utc.astimezone(_ZONES[n % len(_ZONES)])
 
 
 def n_of_date(dt):
-    """inverse of date_of; 1990-01-01 (the library's 'no profile held' value) -> None."""
+    """inverse of date_of; 1990-01-01 (the library's 'no profile held' value) -> None; an instant that is no profile's date -> -2."""
     if dt is None:
         return None
     if dt.year == 1990:
         return None
-    d = dt - EPOCH
-    assert d.seconds == 0 and d.microseconds == 0, dt
-    return d.days
+    n = (dt.astimezone(datetime.timezone.utc) - EPOCH).days
+    return n if date_of(n) == dt else -2
 
 
 # ------------------------------------------------------------------ institution identities (ORG, FID) used by the C14 / C15 histories
@@ -103,7 +109,7 @@ SETKINDS = ("bank", "cc", "inv", "other")
 
 def make_profile(n, sets, tag="", pad=0):
     """complete PROFRS document: DTPROFUP = date_of(n); sets = [(kind, url, closingavail)], kind in SETKINDS.
-    `tag` makes two profiles of the same date differ; `pad` (0..23) lengthens the document by that many bytes."""
+    `tag` makes two profiles of the same date differ; `pad` (0..50) lengthens the document by that many bytes."""
     L = lib(); M = L.M
     core = lambda url: M.MSGSETCORE("ENG", ver=1, url=url, ofxsec="NONE", transpsec=True, signonrealm="R",
                                     syncmode="LITE", respfileer=True)
@@ -126,7 +132,7 @@ def make_profile(n, sets, tag="", pad=0):
     si = M.SIGNONINFOLIST(M.SIGNONINFO(signonrealm="R", min=1, max=32, chartype="ALPHAORNUMERIC", casesen=True,
                                         special=True, spaces=False, pinch=False, chgpinfirst=False))
     dt = date_of(n)
-    profrs = M.PROFRS(msgsetlist=msl, signoninfolist=si, dtprofup=dt, finame="FI" + tag[:30], addr1="1 Main St" + "x" * pad, city="c",
+    profrs = M.PROFRS(msgsetlist=msl, signoninfolist=si, dtprofup=dt, finame="FI" + tag[:30], addr1="1 Main St" + "x" * min(pad, 23), city="c" + "y" * max(0, pad - 23),
                       state="NY", postalcode="1", country="USA")
     trn = M.PROFTRNRS(trnuid="1", status=M.STATUS(code=0, severity="INFO"), profrs=profrs)
     return _wrap(trn, dt)
